@@ -129,6 +129,22 @@ def gen_jobs(ctx):
         for i, s in enumerate(base):
             inputs.append(LAYOUT_VARIANTS[i % 3](s) if s else rng.choice(["", " ", "\n"]))
         jobs.append((name, text, sorted(set(inputs))))
+    for i in range(20 if quick else 120):
+        for gen in (gramgen.lr1_twin_grammar, gramgen.ctx_nullable_grammar):
+            prods, text = gen(rng)
+            alpha = gramgen.alphabet_of(text)
+            base = []
+            for _ in range(16):
+                sen = gramgen.random_sentence(rng, prods, max_depth=6, max_len=8)
+                if sen is None:
+                    continue
+                base.append(sen)
+                if len(sen) > 1:
+                    k = rng.randrange(len(sen))
+                    base.append(sen[:k] + rng.choice(alpha) + sen[k + 1:])
+            base = sorted(set(base))
+            inputs = [LAYOUT_VARIANTS[j % 3](s_) for j, s_ in enumerate(base)]
+            jobs.append(("%s%d" % (gen.__name__[:4], i), text, sorted(set(inputs))))
     nrand = 120 if quick else 1500
     for i in range(nrand):
         big = i % 3 == 0
